@@ -18,6 +18,13 @@ Definition dyn_target (m : string) : option string :=
   else if String.eqb m "Console.render" then Some "_LiveRender.__rich_console__"
   else None.
 
+(* set-the-done-flag and join of the auto-refresh thread stay visible in a path *)
+Definition thread_call (m : string) : bool :=
+  existsb (String.eqb m) ["LiveRefreshThread.stop"; "LiveRefreshThread.join";
+                          "ProgressRefreshThread.stop"; "ProgressRefreshThread.join"].
+Definition is_join (m : string) : bool :=
+  String.eqb m "LiveRefreshThread.join" || String.eqb m "ProgressRefreshThread.join".
+
 (* one path through a method: every If / Loop / dynamic call consumes one decision
    (If: then/else; Loop: once/not at all; dynamic call: dispatches to the live object / to an
    object without events).  Calls of tabled methods are inlined. *)
@@ -38,7 +45,10 @@ Fixpoint expand_g (dyn_target : string -> option string) (fuel : nat) (ds : list
                     | false :: ds' => ([], ds')
                     | [] => ([Call "NO-DECISION"], [])
                     end
-                | None => match lookup m lock_table with Some b => expand_g dyn_target f ds b | None => ([], ds) end
+                | None => match lookup m lock_table with
+                          | Some b => expand_g dyn_target f ds b
+                          | None => (if thread_call m then [Call m] else [], ds)
+                          end
                 end
             | If _ th el =>
                 match ds with
@@ -70,6 +80,7 @@ Definition need (write : bool) (f : string) : option string :=
   else if String.eqb f "Console.file" then Some "Console._lock"
   else if String.eqb f "LiveRender._shape" || String.eqb f "LiveRender.renderable" || String.eqb f "Live._started"
   then Some "Live._lock"
+  else if String.eqb f "Progress._started" then Some "Progress._lock"
   else if String.eqb f "Console._render_hooks" then (if write then Some "Live._lock" else None)
        (* print/log iterate over _render_hooks WITHOUT a lock: see hooks_read_unguarded *)
   else Some "UNKNOWN-FIELD".
@@ -112,10 +123,12 @@ Definition footprint (i : instr) : list ev :=
   | IRenderLive => [Rd "LiveRender.renderable"; Wr "LiveRender._shape"]
   | IResetShape => [Wr "LiveRender._shape"]
   | ISetRend _ _ => [Wr "LiveRender.renderable"]
-  | IStart | IStop => [Rd "Live._started"]
+  | IStart | IStop | IStopA _ => [Rd "Live._started"]
+  | ISetDone => [Call "LiveRefreshThread.stop"]
+  | IJoin _ => [Call "LiveRefreshThread.join"]
   | ISetStarted _ => [Wr "Live._started"]
   | IPushHook | IPopHook => [Wr "Console._render_hooks"]
-  | IEnter | IExitDec | ITest | IRenderTxt _ | IExtend | ICtl _ => []
+  | IEnter | IExitDec | ITest | IRenderTxt _ | IExtend | ICtl _ | ILoop | ICheckDone => []
   end.
 
 (* the instructions one thread executes when it runs alone from a given shared state *)
@@ -189,7 +202,7 @@ Example bridge_refresh_thread :
 Proof. vm_compute. reflexivity. Qed.
 
 Example bridge_start :
-  path "Live.start" [false; true] = Some (model_path false None 0 (compile_op Start)).
+  path "Live.start" [false; true; false] = Some (model_path false None 0 (compile_op Start)).
 Proof. vm_compute. reflexivity. Qed.
 
 Example bridge_start_twice :
@@ -197,12 +210,18 @@ Example bridge_start_twice :
 Proof. vm_compute. reflexivity. Qed.
 
 Example bridge_stop :
-  path "Live.stop" [false; true; true; true; true; true; false; false; false; true; true; true; false]
+  path "Live.stop" [false; false; true; true; true; true; true; false; false; false; true; true; true; false; false; false]
   = Some (model_path true (Some 2%nat) 0 (compile_op Stop)).
 Proof. vm_compute. reflexivity. Qed.
 
+(* auto-refreshing display: done flag set under the lock, join AFTER the lock is released *)
+Example bridge_stop_auto :
+  path "Live.stop" [false; true; true; true; true; true; true; false; false; false; true; true; true; false; false; true]
+  = Some (model_path true (Some 2%nat) 0 (compile_op (StopAuto 5%nat))).
+Proof. vm_compute. reflexivity. Qed.
+
 Example bridge_stop_not_started :
-  path "Live.stop" [true] = Some (model_path false None 0 (compile_op Stop)).
+  path "Live.stop" [true; true] = Some (model_path false None 0 (compile_op Stop)).
 Proof. vm_compute. reflexivity. Qed.
 
 (* ---- lock discipline computed on the table (T3) *)
@@ -212,31 +231,36 @@ Definition assumes (m : string) : list string :=
                              "Console.push_render_hook"; "Console.pop_render_hook"]
   then ["Live._lock"] else [].
 Definition lrank (l : string) : Z :=
-  if String.eqb l "Live._lock" then 0 else if String.eqb l "Console._lock" then 1
+  if String.eqb l "Live._lock" || String.eqb l "Progress._lock" then 0 else if String.eqb l "Console._lock" then 1
   else if String.eqb l "Console._record_buffer_lock" then 2 else -1.
 Definition order_ok (held : list string) (l : string) : bool :=
   ((0 <=? lrank l)%Z && forallb (fun h => String.eqb h l || (lrank h <? lrank l)%Z) held)%bool.
 
 (* every arm of every branch: accesses guarded, locks well nested, lock order respected *)
-Fixpoint gev (held : list string) (e : ev) {struct e} : option (list string) :=
+Fixpoint gev_g (nd : bool -> string -> option string) (asm : string -> list string)
+         (held : list string) (e : ev) {struct e} : option (list string) :=
   let gl := fix gl (held : list string) (l : list ev) : option (list string) :=
               match l with
               | [] => Some held
-              | x :: r => match gev held x with Some h => gl h r | None => None end
+              | x :: r => match gev_g nd asm held x with Some h => gl h r | None => None end
               end in
   let same (o : option (list string)) :=
       match o with Some h => list_eqb String.eqb h held | None => false end in
   match e with
   | Acq l => if order_ok held l then Some (l :: held) else None
   | Rel l => match held with h :: hs => if String.eqb h l then Some hs else None | [] => None end
-  | Rd f => if holds held (need false f) then Some held else None
-  | Wr f => if holds held (need true f) then Some held else None
+  | Rd f => if holds held (nd false f) then Some held else None
+  | Wr f => if holds held (nd true f) then Some held else None
   | Write => if holds held (Some "Console._lock") then Some held else None
-  | Call m => if forallb (fun l => holds held (Some l)) (assumes m) then Some held else None
+  | Call m => (* join() blocks until the thread has finished: the joined thread needs the locks, so the
+                 caller must hold none (waits-for edge caller -> thread -> lock owner = caller) *)
+              if is_join m then (if is_nil held then Some held else None)
+              else if forallb (fun l => holds held (Some l)) (asm m) then Some held else None
   | Local _ => Some held
   | If _ th el => if same (gl held th) && same (gl held el) then Some held else None
   | Loop _ b => if same (gl held b) then Some held else None
   end.
+Definition gev := gev_g need assumes.
 Definition guarded (entry : string * list ev) : bool :=
   let held := assumes (fst entry) in
   match fold_left (fun o e => match o with Some h => gev h e | None => None end) (snd entry) (Some held) with
@@ -322,4 +346,42 @@ Proof. vm_compute. reflexivity. Qed.
 Example progress_stop_not_started :
   path_progress "Progress.stop" [true; true]
   = Some [Acq "Progress._lock"; Rel "Progress._lock"].
+Proof. vm_compute. reflexivity. Qed.
+
+(* ---- start()/stop(): check-then-act on _started inside ONE critical section (Live and Progress),
+   and join() of the refresh thread only with no lock held (rule inside gev_g). *)
+Definition need_started (w : bool) (f : string) : option string :=
+  if String.eqb f "Progress._started" || String.eqb f "Live._started" then need w f else None.
+Definition started_guarded (entry : string * list ev) : bool :=
+  match fold_left (fun o e => match o with Some h => gev_g need_started (fun _ => []) h e | None => None end)
+                  (snd entry) (Some []) with
+  | Some h => is_nil h
+  | None => false
+  end.
+Example start_stop_started_guarded :
+  map (fun en => (fst en, started_guarded en))
+      (filter (fun en => existsb (String.eqb (fst en)) ["Live.start"; "Live.stop"; "Progress.start"; "Progress.stop"]) lock_table)
+  = [("Live.start", true); ("Live.stop", true); ("Progress.start", true); ("Progress.stop", true)].
+Proof. vm_compute. reflexivity. Qed.
+
+Definition started_or_lock (l : string) (e : ev) : bool :=
+  match e with
+  | Acq x | Rel x => String.eqb x l
+  | Rd f | Wr f => String.eqb f "Progress._started" || String.eqb f "Live._started"
+  | _ => false
+  end.
+(* the body of start() on a display that is not started: the read that decides and the write that
+   commits are consecutive events of the same critical section *)
+Example progress_start_check_then_act :
+  match lookup "Progress.start" lock_table with
+  | Some b => firstn 3 (filter (started_or_lock "Progress._lock")
+                (fst (expand_g dyn_progress 40 [false; true; true; false; true; true; true; false; false; true; false; false] b)))
+  | None => []
+  end = [Acq "Progress._lock"; Rd "Progress._started"; Wr "Progress._started"].
+Proof. vm_compute. reflexivity. Qed.
+Example live_start_check_then_act :
+  match lookup "Live.start" lock_table with
+  | Some b => filter (started_or_lock "Live._lock") (fst (expand_g dyn_target 40 [false; true; false] b))
+  | None => []
+  end = [Acq "Live._lock"; Rd "Live._started"; Wr "Live._started"; Rel "Live._lock"].
 Proof. vm_compute. reflexivity. Qed.
